@@ -21,12 +21,13 @@ const (
 	c_stream_walks_accepted
 	c_suffix_checks
 	c_value_roundtrips
+	c_reader_skipped_dangerous_claim
 	nCtr
 )
 
 var cnt [nCtr]int64
 
-var cntNames = [nCtr]string{"accepted", "alloc_checks", "bytes_cases", "count_checks", "exh_strings", "hostile_strings", "mutated_strings", "reader_checks", "reencode_checks", "rejected_grammatical", "rejected_ungrammatical", "split_accepted", "split_checks", "stream_walks", "stream_walks_accepted", "suffix_checks", "value_roundtrips"}
+var cntNames = [nCtr]string{"accepted", "alloc_checks", "bytes_cases", "count_checks", "exh_strings", "hostile_strings", "mutated_strings", "reader_checks", "reencode_checks", "rejected_grammatical", "rejected_ungrammatical", "split_accepted", "split_checks", "stream_walks", "stream_walks_accepted", "suffix_checks", "value_roundtrips", "reader_skipped_dangerous_claim"}
 
 func flushCounts(r *mon.Run) {
 	for i, n := range cnt {
